@@ -23,7 +23,7 @@ REQUIRED_PROBES = ["write_pixels"]
 REQUIRED_FEATURES = ["form:df_sorted", "form:df_shuffled", "form:dict", "form:chunks_df", "form:chunks_dict",
                      "form:arrayloader", "chunks:leading-empty", "chunks:trailing-empty", "chunks:all-empty",
                      "mode:square", "mode:symm", "extra-columns:2", "ensure_sorted:shuffled-chunk",
-                     "ensure_sorted:rows-ordered-columns-shuffled"]
+                     "ensure_sorted:rows-ordered-columns-shuffled", "pixels:stored-zero-values"]
 
 FORMS = ["df_sorted", "df_shuffled", "dict", "chunks_df", "chunks_dict", "arrayloader", "chunks_df", "chunks_dict"]
 H5OPTS = [None, {"compression": "lzf"}, {"compression": "gzip", "compression_opts": 1},
@@ -72,7 +72,8 @@ def make_case(rng, idx):
         symm = True
     isfloat = cdt in ("float32", "float64")
     values = "dyadic" if isfloat else "int"
-    P = gen.gen_pixels(rng, n, symm, pat, values=values, vmax=50)
+    zeros = 0.25 if rng.random() < 0.2 and form != "arrayloader" else 0.0     # a dense array cannot express a stored 0
+    P = gen.gen_pixels(rng, n, symm, pat, values=values, vmax=50, zeros=zeros)
     nextra = int(rng.integers(0, 3)) if form != "arrayloader" else 0
     extra, extra_dt = {}, {}
     for e in range(nextra):
@@ -83,7 +84,7 @@ def make_case(rng, idx):
         else:
             extra[name] = {k: float(int(rng.integers(-400, 400))) / 8.0 for k in P}
         extra_dt[name] = dt
-    return dict(fam=fam, bt=bt, n=n, symm=symm, form=form, pat=pat, cdt=cdt, P=P, extra=extra, extra_dt=extra_dt,
+    return dict(zeros=bool(zeros), fam=fam, bt=bt, n=n, symm=symm, form=form, pat=pat, cdt=cdt, P=P, extra=extra, extra_dt=extra_dt,
                 h5opts=H5OPTS[int(rng.integers(len(H5OPTS)))],
                 metadata=METADATA[int(rng.integers(len(METADATA)))],
                 assembly=ASSEMBLIES[int(rng.integers(len(ASSEMBLIES)))],
@@ -108,6 +109,8 @@ def one_case(ctx, cid, rng, idx):
                   f"pattern:{K['pat']}", f"count-dtype:{K['cdt']}", f"extra-columns:{len(extra)}",
                   f"h5opts:{json.dumps(K['h5opts'])}", f"dest:{'nested' if K['nested'] else 'root'}",
                   f"store:{K['store']}")
+        if K["zeros"] and any(v == 0 for v in P.values()):
+            c.feature("pixels:stored-zero-values")
         bins = gen.bt_frame(bt, categorical=bool(rng.random() < 0.5))
         if K["bins_extra"]:
             bins["gc"] = np.round(rng.random(n), 3)
